@@ -9,8 +9,8 @@ from common import *
 import gen, pipeline, model, findings as F, oracle
 from props import base, c01
 
-PROPS_MODULES = ["ShexerModel.Props.C16"]
-DEPS = []
+PROPS_MODULES = ["ShexerModel.Props.C16", "ShexerModel.Props.GenStrNsFilter"]
+DEPS = ["S.check_if_property_belongs_to_namespace_list"]
 replay = base.replay
 
 NS_SETS = [[EX], [EX + 'deep/'], [EX, EX + 'deep/'], [EX + 'deep/', EX], [RDF], [EX + 'dee'], ['http://other.example/']]
@@ -135,6 +135,7 @@ def run(ctx):
         for v in v2:
             v["what"] = "under instances_cap: " + v["what"]
         viol += v2
+    base.fragment_s_tie(ctx, dis, stats, ['check_if_property_belongs_to_namespace_list'])
     return base.std_result(ctx, cases, viol, dis, base.known_lines(kf, set()), stats, nontriv, [],
                            "ignored namespaces: option on G vs no option on G without the predicates that are direct children of an ignored "
                            "namespace (nested namespaces in both orders, predicates one level deeper, a namespace that is a string prefix only); "
